@@ -162,6 +162,18 @@ CHECKS["C10"] = dict(
     note=TB + "; the full-stack half is exploration (fault_enumeration level): positions sampled in the quick tier, all in thorough; threaded mode not covered",
 )
 
+CHECKS["C13"] = dict(
+    category="proof",
+    text=("Coq model of ezsp_callback_handler/_handle_frame/_handle_tc_join_handler on decoded callback values; theorems: in every one of "
+          "the 11 versions the positions the code unpacks carry the right fields of the generated incomingMessageHandler / "
+          "trustCenterJoinHandler schemas (both field orders; vm_compute over generated tables); unicast/multicast/broadcast yield exactly "
+          "one packet with all fields equal to the callback's and the destination by type, other types none; join/leave/denied triage. Tied "
+          "to the code by correspondence: frames built by an independent byte-level encoder pushed through the real EZSP.frame_received "
+          "into the real ControllerApplication for every version, model = decode over generated tables + translate."),
+    design_ref="DESIGN.md section 6 C13",
+    technique="Coq proof over translator-generated callback schemas + byte-level model/implementation correspondence",
+)
+
 NOT_YET = {}
 
 
